@@ -82,6 +82,7 @@ type c07gen struct {
 	closedMap  []string // finished anchored mappings
 	closedAny  []string // finished anchored nodes of any kind
 	scalarAnch []string
+	scalarText map[string]string // anchor name -> the scalar it anchors, as written
 	valueCycle bool
 	mergeCycle bool
 	mixedCycle bool
@@ -100,7 +101,7 @@ func (g *c07gen) key(i int) string {
 		g.oddKeys = true
 		return sx.Pick(g.rng, []string{"1", "0x1", "true", "True", "1.0", "1e0", "yes", "0o1"})
 	}
-	if g.rng.Chance(5) && len(g.scalarAnch) > 0 {
+	if g.rng.Chance(15) && len(g.scalarAnch) > 0 {
 		g.oddKeys = true
 		return "*" + sx.Pick(g.rng, g.scalarAnch) + " "
 	}
@@ -112,16 +113,21 @@ func (g *c07gen) value(depth int) string {
 	r := g.rng.Intn(100)
 	switch {
 	case r < 30 || depth <= 0 || g.size > 60:
-		if g.rng.Chance(10) {
+		if g.rng.Chance(25) {
 			g.nAnchor++
 			a := fmt.Sprintf("s%d", g.nAnchor)
 			g.scalarAnch = append(g.scalarAnch, a)
-			return "&" + a + " " + g.scalar()
+			sc := g.scalar()
+			if g.scalarText == nil {
+				g.scalarText = map[string]string{}
+			}
+			g.scalarText[a] = sc
+			return "&" + a + " " + sc
 		}
 		return g.scalar()
 	case r < 45 && len(g.closedAny) > 0:
 		return "*" + sx.Pick(g.rng, g.closedAny)
-	case r < 49 && len(g.open) > 0:
+	case r < 47 && len(g.open) > 0:
 		g.valueCycle = true
 		return "*" + sx.Pick(g.rng, g.open)
 	case r < 70:
@@ -175,7 +181,7 @@ func (g *c07gen) mapping(depth int) string {
 			} else {
 				parts = append(parts, "<<: *"+sx.Pick(g.rng, g.closedMap))
 			}
-		case r < 34 && len(g.open) > 0:
+		case r < 32 && len(g.open) > 0:
 			merges++
 			src := sx.Pick(g.rng, g.open)
 			if src == anchor {
@@ -184,7 +190,7 @@ func (g *c07gen) mapping(depth int) string {
 				g.mixedCycle = true // merging an enclosing mapping re-introduces this mapping as a value
 			}
 			parts = append(parts, "<<: *"+src)
-		case r < 35 && len(g.closedMap) > 0:
+		case r < 33 && len(g.closedMap) > 0:
 			// a merge whose value is a sequence containing itself: a merge cycle with no mapping on it
 			merges++
 			g.nAnchor++
@@ -194,7 +200,7 @@ func (g *c07gen) mapping(depth int) string {
 				"<<: &" + l + " [*" + l + "]",
 				"<<: &" + l + " [[*" + l + "], *" + sx.Pick(g.rng, g.closedMap) + "]",
 				"<<: &" + l + " [*" + sx.Pick(g.rng, g.closedMap) + ", *" + l + "]"}))
-		case r < 37:
+		case r < 35:
 			merges++
 			g.mergeBad = true
 			parts = append(parts, "<<: "+sx.Pick(g.rng, []string{"scalar", "[1, 2]", "~"}))
@@ -324,6 +330,26 @@ func c07one(text string, g *c07gen) {
 			return
 		}
 		obs = sx.L(sx.A("ok"), anySexp(r.v))
+		// an alias used as a mapping key stands for its anchor's scalar: writing that scalar in place of the
+		// alias must give the same decoded value
+		if g != nil && len(g.scalarText) > 0 {
+			inl := text
+			for a, sc := range g.scalarText {
+				inl = strings.ReplaceAll(inl, "*"+a+" :", sc+" :")
+			}
+			if inl != text {
+				var n2 yaml.Node
+				if err := yaml.Unmarshal([]byte(inl), &n2); err == nil {
+					if v2, err2 := ordered.DecodeYAML(&n2); err2 == nil {
+						if a, b := sx.String(anySexp(r.v)), sx.String(anySexp(v2)); a != b {
+							oracleFail("C07", "alias-key-differs", c, fmt.Sprintf("with the alias keys written out (%q) the document decodes to %s, with aliases to %s", inl, b, a))
+							return
+						}
+						stat("C07", "alias-key-inlined")
+					}
+				}
+			}
+		}
 		// reference: yaml.v3's own decoder, where it accepts the document (single merges, string keys)
 		if g != nil && !g.repeated && !g.oddKeys && !g.mergeCycle && !g.mixedCycle {
 			var ref any
